@@ -22,6 +22,9 @@ def run(ck):
     uf = gen_corpus("UF", module="gen/Gen_Bool", deps=DEPS)
     nqf, nuf = (2200, 1200) if quick else (len(qf), len(uf))
     qf_s = ck.rng.sample(qf, min(nqf, len(qf)))
+    # negated compounds needed in both polarities: always all of them
+    pol = gen_corpus("POL", module="gen/Gen_Bool", deps=DEPS)
+    qf_s = pol + [j for j in qf_s if j not in pol]
     uf_s = ck.rng.sample(uf, min(nuf, len(uf)))
     evs = []
     eid = [0]
